@@ -64,7 +64,7 @@ fn main() {
             }
             let seed: u64 = kv.get("seed").map(|s| s.parse().unwrap()).unwrap_or(1);
             let stride: u64 = kv.get("stride").map(|s| s.parse().unwrap()).unwrap_or(1);
-            let kinds_s = kv.get("kinds").cloned().unwrap_or("messages,send,commit,race,proposal,own,welcome,create,txatomic".to_string());
+            let kinds_s = kv.get("kinds").cloned().unwrap_or("messages,send,ownmsg,commit,race,proposal,own,welcome,create,txatomic".to_string());
             let kinds: Vec<&str> = kinds_s.split(',').collect();
             crash::run_crash(out, seed, stride, &kinds);
         }
